@@ -129,7 +129,7 @@ class Events:
         return hashlib.sha256(json.dumps(self.log, sort_keys=True, default=str).encode()).hexdigest()
 
 
-FAULTABLE = {"open_data", "open_out", "write", "flush", "close", "stdout_write", "stdout_flush", "remove", "rename", "replace"}
+FAULTABLE = {"walk", "open_data", "open_out", "write", "flush", "close", "stdout_write", "stdout_flush", "remove", "rename", "replace"}
 
 
 # =============================================================================
@@ -465,8 +465,10 @@ class SimFS:
             yield from _o.walk(top, topdown, onerror, followlinks)
             return
         top = os.fspath(top)
-        idx, _ = self.ev.point("walk", rel, None)
+        idx, flt = self.ev.point("walk", rel, None)
         try:
+            if flt is not None and flt["kind"] in ("error", "short"):
+                raise _oserror(flt.get("errno", "EACCES"), top)
             entries = self._scan(self.real(rel))
         except OSError as e:
             if onerror is not None:
